@@ -238,7 +238,7 @@ func TestVerifC27Calibrate(t *testing.T) {
 					ch(fmt.Sprintf("tx%d.end", i), 3)
 					switch {
 					case tier == "quick":
-						ch(fmt.Sprintf("tx%d.ddl", i), 4)
+						ch(fmt.Sprintf("tx%d.ddl", i), 3)
 					case i == 1:
 						ch(fmt.Sprintf("tx%d.ddl", i), len(verifC27ChainDDL))
 					default:
